@@ -61,12 +61,14 @@ def lax_grid():
         yield "int", [L("max_length", n)], [5, 55, 555]
     yield "str", [L("max_length", 2), ("min_length", 1, False)], strs
     decs = [D("1.5"), D("1.55"), D("1.555"), D("12.345"), D("123.456"), D("0.05"), D("0.005"), D("99.99"), D("9.999"), D("100"),
-            D("1E+2"), D("0.996"), D("9.96"), D("-9.96"), D("12345"), D("0")]
+            D("1E+2"), D("0.996"), D("9.96"), D("-9.96"), D("12345"), D("0"),
+            # a carry out of the last decimal place that leaves nothing to drop
+            D("99.6"), D("9.5"), D("999.5"), D("-99.6"), D("99.96"), D("0.96")]
     for d in (1, 2, 3, 4):
         yield "Decimal", [L("max_digits", d)], decs
         yield "Decimal", [L("decimal_places", d)], decs
         yield "float", [L("decimal_places", d)], [1.5, 1.55, 1.555, 12.345, 0.05, 0.005, 2.675, 1.005, 99.99, 0.125]
-        yield "float", [L("max_digits", d)], [1.5, 1.55, 12.345, 0.05, 99.99, 9.96, 0.996, 123.456]
+        yield "float", [L("max_digits", d)], [1.5, 1.55, 12.345, 0.05, 99.99, 9.96, 0.996, 123.456, 99.6, 9.5, 999.5, -99.6, 99.96, 0.96, 9999.6]
     yield "Decimal", [L("max_digits", 3), L("decimal_places", 2)], decs
     yield "Decimal", [L("max_digits", 4), ("decimal_places", 2, False)], decs
     yield "int", [L("const", 1)], [0, 1, 2, -5]
